@@ -4,6 +4,7 @@ import (
 	"context"
 	"errors"
 	"fmt"
+	"io/fs"
 	"os"
 	"path/filepath"
 	"runtime"
@@ -11,6 +12,7 @@ import (
 	"strings"
 	"sync"
 	"sync/atomic"
+	"syscall"
 	"time"
 
 	"go.miragespace.co/specter/kv/aof"
@@ -20,6 +22,8 @@ import (
 	"go.miragespace.co/specter/spec/protocol"
 
 	"go.uber.org/zap"
+
+	"verif/engine/vos"
 )
 
 var bg = context.Background()
@@ -390,6 +394,54 @@ func isSubseq(small, big []string) bool {
 		}
 	}
 	return j == len(small)
+}
+
+// ---------------------------------------------------------------- injected write failures
+
+// armed: directory of the log files -> number of writes that must still fail. The patched
+// tidwall/wal copy performs its file operations through verif/engine/vos; FailOp makes the
+// next write(2) into an armed directory fail with ENOSPC without writing anything.
+var (
+	armedDirs  sync.Map // string -> *atomic.Int32
+	armedCount atomic.Int64
+	failedOps  atomic.Int64
+)
+
+func init() {
+	vos.FailOp = func(op, path string) error {
+		if armedCount.Load() == 0 || (op != "write" && op != "write-at") {
+			return nil
+		}
+		v, ok := armedDirs.Load(filepath.Dir(path))
+		if !ok {
+			return nil
+		}
+		n := v.(*atomic.Int32)
+		if n.Load() <= 0 {
+			return nil
+		}
+		n.Add(-1)
+		failedOps.Add(1)
+		return &fs.PathError{Op: "write", Path: path, Err: syscall.ENOSPC}
+	}
+}
+
+// armWriteFailure makes the next n writes into dir fail; disarmWriteFailure returns how many
+// armed failures were NOT consumed.
+func armWriteFailure(dir string, n int32) {
+	c := &atomic.Int32{}
+	c.Store(n)
+	if _, loaded := armedDirs.Swap(dir, c); !loaded {
+		armedCount.Add(1)
+	}
+}
+
+func disarmWriteFailure(dir string) int32 {
+	if v, ok := armedDirs.LoadAndDelete(dir); ok {
+		armedCount.Add(-1)
+		return v.(*atomic.Int32).Load()
+	}
+	return 0
 }
 
 // ---------------------------------------------------------------- minimal failing histories
